@@ -139,6 +139,21 @@ def oracle(ctx, widen=1):
         if res[0] != "ok":
             continue
         ok_modes.add(tuple(sorted(vals)))
+        # the Ewald limit: beyond lambda = 2d (by more than the 1e-7 the library's own range guard tolerates) there is nothing to return;
+        # inside that 1e-7 band theta is clipped to 90 deg, the turning point of asin, where 1e-7 in sin(theta) is 4e-4 rad of angle:
+        # the outcome there is decided by the gate, not by the property
+        ratio = None
+        if ub.crystal is not None:
+            Bm = np.asarray(ub.crystal.B, float)
+            nb = np.linalg.norm(Bm @ np.asarray(hkl, float))
+            ratio = wl * nb / (4 * math.pi) if nb > 0 else None
+        if ratio is not None and ratio > 1 + 2e-7:
+            ctx.violation(f"mode {sorted(vals)} hkl={tuple(round(x, 5) for x in hkl)} [{tag}]: lambda/2d = 1 + {ratio - 1:.3g}, the reflection is outside the Ewald sphere, "
+                          f"yet {len(res[1])} positions were returned (first: {tuple(round(x, 4) for x in res[1][0][0])})",
+                          {"constraints": vals, "hkl": list(hkl), "wl": wl, "UB": np.asarray(ub.UB).tolist()}, {"kind": "unreachable-answered"})
+            continue
+        if ratio is not None and ratio > 1 - 1e-12:
+            continue
         for pos, va in res[1]:
             elements += 1
             bad = check_element(ub, hkl, wl, pos, va, hc)
